@@ -134,7 +134,7 @@ def _run_proc(binpath, text, timeout, env=None):
         return 'timeout', out or '', ''
 
 
-def run_lines(binpath, lines, timeout=600, per_line_timeout=10, env=None):
+def run_lines(binpath, lines, timeout=600, per_line_timeout=20, env=None):
     """Run request lines; returns a list of answers, one per line. A line that hangs or kills the
     process is answered HANG / ABORT (found by re-running with per-line flushing)."""
     if not lines:
